@@ -34,11 +34,15 @@ type response struct {
 	nid uint32
 	msg protoreflect.ProtoMessage
 	err error
+	// method is the method name carried by the reply that msg was decoded from.
+	method string
 }
 
 type responseRouter struct {
 	c         chan<- response
 	streaming bool
+	// method is the method of the request that this router waits for.
+	method string
 }
 
 type channel struct {
@@ -130,6 +134,12 @@ func (c *channel) routeResponse(msgID uint64, resp response) {
 	c.responseMut.Lock()
 	defer c.responseMut.Unlock()
 	if router, ok := c.responseRouters[msgID]; ok {
+		if resp.msg != nil && resp.method != router.method {
+			// The codec selected the type of resp.msg from the method name in the reply.
+			// Do not hand a message of another method's response type to the call;
+			// the generated code asserts the type of the replies it gets.
+			resp = response{nid: c.node.ID(), err: fmt.Errorf("gorums: reply for method %q to a call of %q", resp.method, router.method)}
+		}
 		router.c <- resp
 		// delete the router if we are only expecting a single reply message,
 		// or if the node reported an error (which is final for this call)
@@ -142,7 +152,7 @@ func (c *channel) routeResponse(msgID uint64, resp response) {
 func (c *channel) enqueue(req request, responseChan chan<- response, streaming bool) {
 	if responseChan != nil {
 		c.responseMut.Lock()
-		c.responseRouters[req.msg.Metadata.MessageID] = responseRouter{responseChan, streaming}
+		c.responseRouters[req.msg.Metadata.MessageID] = responseRouter{responseChan, streaming, req.msg.Metadata.Method}
 		c.responseMut.Unlock()
 	}
 	// either enqueue the request on the sendQ or respond with error
@@ -270,7 +280,7 @@ func (c *channel) receiver() {
 		} else {
 			c.streamMut.RUnlock()
 			err := status.FromProto(resp.Metadata.GetStatus()).Err()
-			c.routeResponse(resp.Metadata.MessageID, response{nid: c.node.ID(), msg: resp.Message, err: err})
+			c.routeResponse(resp.Metadata.MessageID, response{nid: c.node.ID(), msg: resp.Message, err: err, method: resp.Metadata.Method})
 		}
 
 		select {
